@@ -304,6 +304,7 @@ def oracle(ctx, tasks=None):
     res = O.run_all(tasks)
     table = routing_entries()
     n_fail = 0
+    control_bad = []
     scope_mismatch = []
     seen_pairs = set()
     for t in tasks:
@@ -320,6 +321,8 @@ def oracle(ctx, tasks=None):
                 seen_pairs.add(key)
                 if key not in table:
                     scope_mismatch.append(f'{key} tested by the oracle but absent from GenRouting')
+        if t['kind'] == 'control_nocheck' and outcome == 'validation-raised':
+            control_bad.append(f"{t['dim']}:{t['method']}:{t['path']}: {detail}")
         if not t['claimed']:
             ctx.hist[f"observed:{t['param']}:{vc.split('@')[0]}:{outcome}"] = \
                 ctx.hist.get(f"observed:{t['param']}:{vc.split('@')[0]}:{outcome}", 0) + 1
@@ -329,6 +332,11 @@ def oracle(ctx, tasks=None):
             case = {k: v for k, v in t.items()}
             case['outcome'] = outcome
             ctx.fail(finding_key(t, outcome), describe(t, outcome) + (f' [{detail}]' if detail else ''), case)
+    ctx.obligations.append('control:check_finite=False-objects-are-not-rejected-by-the-validation')
+    if control_bad:
+        ctx.broke('control:check_finite=False', '; '.join(control_bad[:5]))
+    else:
+        ctx.discharged.append('control:check_finite=False-objects-are-not-rejected-by-the-validation')
     ctx.obligations.append('cross-validation:oracle-scope-within-routing-table')
     if scope_mismatch:
         ctx.broke('cross-validation:routing-table', '; '.join(scope_mismatch[:5]))
